@@ -439,47 +439,66 @@ def pathRot (c : CryptoOps) (rotType : String) (ks : List (Key × Bool)) : PyRes
 
 /-! ### paths: debug credential RoT meta -/
 
+/-- one `rot_item` of `RotMetaRSA.load_from_config`: SHA-256 of `rot.export(exp_length=3)` -/
+def datRsaItem (c : CryptoOps) : Key → PyRes Bytes
+  | .rsa n e => do
+    let d ← exportRsa n e (some G.datRsaExpLength) none
+    pure (c.hash .sha256 d)
+  | .ecc _ _ _ => throw PyErr.other        -- `assert isinstance(rot, PublicKeyRsa)`
+
 /-- `RotMetaRSA.load_from_config(...).calculate_hash()` -/
-def pathDatRsa (c : CryptoOps) (ks : List Key) : PyRes Bytes := do
-  if ks.length > 4 then throw .spsdk
-  let items ← ks.mapM (fun k => match k with
-    | .rsa n e => do
-      let d ← exportRsa n e (some G.datRsaExpLength) none
-      pure (c.hash .sha256 d)
-    | .ecc _ _ _ => throw PyErr.other)        -- `assert isinstance(rot, PublicKeyRsa)`
-  -- `rot_meta[index*32:(index+1)*32] = rot_item` on a bytearray(128); items are 32 bytes
-  let table := items.flatten ++ List.replicate (G.datRsaTableLen - items.flatten.length) 0
-  pure (c.hash .sha256 table)
+def pathDatRsa (c : CryptoOps) (ks : List Key) : PyRes Bytes :=
+  if ks.length > 4 then .error .spsdk
+  else do
+    let items ← ks.mapM (datRsaItem c)
+    -- `rot_meta[index*32:(index+1)*32] = rot_item` on a bytearray(128); items are 32 bytes
+    let table := items.flatten ++ List.replicate (G.datRsaTableLen - items.flatten.length) 0
+    pure (c.hash .sha256 table)
+
+/-- one CRTK table item of `RotMetaEcc.load_from_config`: `get_hash(pub_key.export(), sha{HASH_SIZES[hash_size]})` -/
+def datEccItem (c : CryptoOps) (a : HashAlg) (k : Key) : PyRes Bytes := do
+  let e ← exportKey k
+  pure (c.hash a e)
+
+def eccCoordSize? : Key → Option Nat
+  | .ecc cv _ _ => some (coordSize cv)
+  | .rsa _ _ => none
+
+/-- the `except SPSDKError:` fallback of `DebugCredentialCertificateEcc.calculate_hash`:
+    `sha{HASH_SIZES[rot_pub.coordinate_size]}` of `rot_pub.export()` -/
+def datEccFallback (c : CryptoOps) (k : Key) : PyRes Bytes := do
+  let e ← exportKey k
+  let b ← match (eccCoordSize? k).bind (G.datEccHashSizes.lookup ·) with | some b => pure b | none => throw PyErr.other
+  let a ← shaLabel b
+  pure (c.hash a e)
 
 /-- `RotMetaEcc.load_from_config` + `calculate_hash`, wrapped by `DebugCredentialCertificateEcc.calculate_hash`
-    (fallback for a single key: hash of `rot_pub.export()` with `sha{key_size}`); `used` = `rot_id` -/
+    (fallback for a single key); `used` = `rot_id`, `rot_pub` = the key at that index -/
 def pathDatEcc (c : CryptoOps) (ks : List Key) (used : Nat) : PyRes Bytes :=
   match ks with
   | [] => .error .spsdk
-  | k0 :: _ => do
-    let cv0 ← match k0 with | .ecc cv _ _ => pure cv | .rsa _ _ => throw PyErr.spsdk
-    if !(ks.all (fun k => match k with | .ecc cv _ _ => coordSize cv == coordSize cv0 | .rsa _ _ => false)) then throw .spsdk
-    let hs := coordSize cv0
-    let bits ← match G.datEccHashSizes.lookup hs with | some b => pure b | none => throw PyErr.spsdk
-    let items ← if ks.length > 1 then do
-        let a ← shaLabel bits
-        ks.mapM (fun k => do let e ← exportKey k; pure (c.hash a e))
-      else pure []
-    if ks.length > 4 then throw .spsdk
-    if used + 1 > ks.length then throw .spsdk
-    let table := if items.length > 1 then items.flatten else []
-    if table.isEmpty then
-      -- `except SPSDKError:` fallback of DebugCredentialCertificateEcc.calculate_hash
-      match ks[used]? with
-      | none => throw .other
-      | some k => do
-        let e ← exportKey k
-        let a ← shaLabel (keySize k)
-        pure (c.hash a e)
-    else do
-      -- key_size = HASH_SIZES[(len(self) - len(self.flags)) // cnt]: KeyError when the item length is not a key
-      let bits2 ← match G.datEccHashSizes.lookup (table.length / ks.length) with | some b => pure b | none => throw PyErr.other
-      let a ← shaLabel bits2
-      pure (c.hash a table)
+  | k0 :: _ =>
+    match eccCoordSize? k0 with
+    | none => .error .spsdk
+    | some hs =>
+      if !(ks.all (fun k => eccCoordSize? k == some hs)) then .error .spsdk
+      else match G.datEccHashSizes.lookup hs with
+        | none => .error .spsdk
+        | some bits => do
+          let items ← if ks.length > 1 then do
+              let a ← shaLabel bits
+              ks.mapM (datEccItem c a)
+            else pure []
+          if ks.length > 4 then throw .spsdk
+          if used + 1 > ks.length then throw .spsdk
+          let table := if items.length > 1 then items.flatten else []
+          if table.isEmpty then
+            match ks[used]? with
+            | none => throw .other
+            | some k => datEccFallback c k
+          else do
+            -- `key_size` = item length in bits: `(len(self) - len(self.flags)) // cnt * 8`
+            let a ← shaLabel (table.length / ks.length * 8)
+            pure (c.hash a table)
 
 end SpsdkVerif.Rkht
